@@ -285,6 +285,9 @@ pub fn c04(scn: &Scenario, tr: &[Ev]) -> Vec<Violation> {
         if ax.on_start_called.len() > 1 {
             v(&mut out, "C04 on_start once", format!("actor {a}: on_start called {} times", ax.on_start_called.len()));
         }
+        if !ax.on_stop_called.is_empty() && ax.on_stop_exit.is_none() && !ax.crashed() && ax.joined.as_ref().map(|(_, j)| j.variant != "Panic").unwrap_or(false) {
+            v(&mut out, "C04 on_stop runs to its end", format!("actor {a}: on_stop was entered, never returned, and the actor ended all the same"));
+        }
         if ax.on_stop_called.len() > 1 {
             v(&mut out, "C04 on_stop at most once", format!("actor {a}: on_stop called {} times", ax.on_stop_called.len()));
         }
@@ -406,6 +409,11 @@ pub fn c05(scn: &Scenario, tr: &[Ev]) -> Vec<Violation> {
         }
         let spec = &scn.actors[a];
         let panicked = ax.crashed();
+        // the result is built from what the hooks returned: an on_stop that was entered and never returned (and did not
+        // panic) cannot be behind a Completed / Failed result
+        if !ax.on_stop_called.is_empty() && ax.on_stop_exit.is_none() && !panicked && js.variant != "Panic" {
+            v(&mut out, "C05 result truthful", format!("actor {a}: the JoinHandle gave {} although on_stop had been entered and never returned", js.variant));
+        }
         if panicked != (js.variant == "Panic") {
             v(&mut out, "C05 panic surfaces as JoinError", format!("actor {a}: panic in hook = {panicked}, join result = {}", js.variant));
             continue;
@@ -1051,6 +1059,14 @@ impl ActorIx {
 pub fn c13(scn: &Scenario, tr: &[Ev]) -> Vec<Violation> {
     let ix = Ix::new(scn, tr);
     let mut out = Vec::new();
+    // a delivery that fails is an Err for its caller - never a panic in the caller's task
+    for e in tr {
+        if let EvK::Panic { msg, loc } = &e.k {
+            if !msg.starts_with("injected") && !msg.starts_with("Deadlock detected") && loc.contains("dead_letter") {
+                v(&mut out, "C13 a failed delivery is recorded, not panicked over", format!("panic at {loc}: {}", msg.lines().next().unwrap_or("")));
+            }
+        }
+    }
     let mut failures = 0u64;
     let mut attributed: std::collections::BTreeSet<usize> = Default::default();
     for o in ix.ops.iter() {
